@@ -9,12 +9,14 @@
 //! `multiaddr_to_socket_address`, all on real `Multiaddr`s built from the abstract shapes.
 use crate::util::*;
 use litep2p::{
+    addresses::InsertionError,
     crypto::ed25519::Keypair,
-    error::{AddressError, DialError},
+    error::{AddressError, DialError, DnsError, NegotiationError, ParseError},
     transport::{
         verif::{
             take_add_order, take_evicted, AddressType, DnsType, GetSocketAddr, SupportedTransport,
-            TcpAddress, TransportManager, TransportManagerBuilder, VerifScript, WebSocketAddress,
+            TcpAddress, TransportManager, TransportManagerBuilder, VerifCall, VerifScript,
+            WebSocketAddress,
         },
         ConnectionLimitsConfig,
     },
@@ -211,6 +213,197 @@ fn enc_abs(a: &Abs, out: &mut Vec<u64>) {
 /// The order of `maddr_key` in Glue.v: shorter first, then digit-wise.
 fn sort_key(a: &Abs) -> (usize, Vec<u64>) {
     (a.len(), a.iter().map(|(t, x)| t * 1_048_576 + x + 1).collect())
+}
+
+// ---------------------------------------------------------------- DialError kinds
+
+/// The wire code of an error kind (Glue.v `err_code`): outer + 4 * inner + 64 * innermost, the
+/// indices being the positions of the variants in the enums of src/error.rs. Exhaustive matches
+/// without wildcard: a new variant of `DialError` or of an enum nested in it stops this harness
+/// from compiling until it is given a code (and the model a constructor).
+fn code_of(e: &DialError) -> u64 {
+    match e {
+        DialError::Timeout => 0,
+        DialError::AddressError(a) => {
+            1 + 4 * match a {
+                AddressError::InvalidProtocol => 0,
+                AddressError::InvalidUrl => 1,
+                AddressError::PeerIdMissing => 2,
+                AddressError::AddressNotAvailable => 3,
+                AddressError::InvalidPeerId(_) => 4,
+            }
+        }
+        DialError::DnsError(d) => {
+            2 + 4 * match d {
+                DnsError::ResolveError(_) => 0,
+                DnsError::IpVersionMismatch => 1,
+            }
+        }
+        DialError::NegotiationError(n) => {
+            3 + 4 * match n {
+                NegotiationError::MultistreamSelectError(_) => 0,
+                NegotiationError::SnowError(_) => 1,
+                NegotiationError::PeerIdMissing => 2,
+                NegotiationError::BadSignature => 3,
+                NegotiationError::Timeout => 4,
+                NegotiationError::ParseError(p) => {
+                    5 + 16 * match p {
+                        ParseError::ProstDecodeError(_) => 0,
+                        ParseError::ProstEncodeError(_) => 1,
+                        ParseError::UnknownKeyType(_) => 2,
+                        ParseError::InvalidPublicKey => 3,
+                        ParseError::InvalidData => 4,
+                        ParseError::InvalidReplyLength => 5,
+                    }
+                }
+                NegotiationError::IoError(_) => 6,
+                NegotiationError::StateMismatch => 7,
+                NegotiationError::PeerIdMismatch(_, _) => 8,
+                #[cfg(feature = "quic")]
+                NegotiationError::Quic(q) => {
+                    9 + 16 * match q {
+                        litep2p::error::QuicError::InvalidCertificate => 0,
+                        litep2p::error::QuicError::ConnectionError(_) => 1,
+                        litep2p::error::QuicError::ConnectError(_) => 2,
+                    }
+                }
+                NegotiationError::WebSocket(_) => 10,
+            }
+        }
+    }
+}
+
+/// A value of the variant with this code (`salt` varies the payloads the variants carry).
+fn error_of_code(w: &World, code: u64, salt: u64) -> Option<DialError> {
+    use std::io::ErrorKind;
+    let (outer, inner, sub) = (code % 4, (code / 4) % 16, code / 64);
+    if sub != 0 && !(outer == 3 && (inner == 5 || inner == 9)) {
+        return None;
+    }
+    let peer = |i: u64| w.peers[(i % NPEERS) as usize];
+    let e = match (outer, inner) {
+        (0, 0) => DialError::Timeout,
+        (1, 0) => AddressError::InvalidProtocol.into(),
+        (1, 1) => AddressError::InvalidUrl.into(),
+        (1, 2) => AddressError::PeerIdMissing.into(),
+        (1, 3) => AddressError::AddressNotAvailable.into(),
+        (1, 4) => AddressError::InvalidPeerId(
+            multihash::Multihash::<64>::wrap(0x12 + salt % 3, &[salt as u8; 32]).ok()?,
+        )
+        .into(),
+        (2, 0) => DnsError::ResolveError(dns_name(salt % 7)).into(),
+        (2, 1) => DnsError::IpVersionMismatch.into(),
+        (3, _) => {
+            let n: NegotiationError = match inner {
+                0 => litep2p::verif_multistream_select::NegotiationError::Failed.into(),
+                1 => (if salt % 2 == 0 { snow::Error::Decrypt } else { snow::Error::Input }).into(),
+                2 => NegotiationError::PeerIdMissing,
+                3 => NegotiationError::BadSignature,
+                4 => NegotiationError::Timeout,
+                5 => NegotiationError::ParseError(match sub {
+                    0 => ParseError::ProstDecodeError(prost::DecodeError::new("verif")),
+                    1 => {
+                        use prost::Message;
+                        let mut small = [0u8; 1];
+                        ParseError::ProstEncodeError(
+                            "longer than one byte".to_string().encode(&mut &mut small[..]).err()?,
+                        )
+                    }
+                    2 => ParseError::UnknownKeyType(salt as i32 % 9),
+                    3 => ParseError::InvalidPublicKey,
+                    4 => ParseError::InvalidData,
+                    5 => ParseError::InvalidReplyLength,
+                    _ => return None,
+                }),
+                6 => NegotiationError::IoError(
+                    [
+                        ErrorKind::ConnectionRefused,
+                        ErrorKind::ConnectionReset,
+                        ErrorKind::TimedOut,
+                        ErrorKind::UnexpectedEof,
+                        ErrorKind::AddrNotAvailable,
+                        ErrorKind::Other,
+                    ][(salt % 6) as usize],
+                ),
+                7 => NegotiationError::StateMismatch,
+                8 => NegotiationError::PeerIdMismatch(peer(salt), peer(salt / 8 + 1)),
+                #[cfg(feature = "quic")]
+                9 if sub == 0 => NegotiationError::Quic(litep2p::error::QuicError::InvalidCertificate),
+                10 => NegotiationError::WebSocket(if salt % 2 == 0 {
+                    tokio_tungstenite::tungstenite::Error::ConnectionClosed
+                } else {
+                    tokio_tungstenite::tungstenite::Error::AlreadyClosed
+                }),
+                _ => return None,
+            };
+            n.into()
+        }
+        _ => return None,
+    };
+    assert_eq!(code_of(&e), code, "error kind table out of step");
+    Some(e)
+}
+
+/// The variant names extracted from src/error.rs (regenerated on every check).
+#[path = "gen_c10_errors.rs"]
+mod gen_errors;
+
+/// Every code this build can construct a value for. The hand-written index tables above are
+/// checked against the source on the way: the Debug name of each value must be the name the
+/// source has at that index path, and every variant of the source that is compiled in must have
+/// a constructor here.
+fn all_error_codes(w: &World) -> Vec<u64> {
+    let codes: Vec<u64> = (0..64 * 8).filter(|c| error_of_code(w, *c, 0).is_some()).collect();
+    let gated_off = |path: &[u64]| {
+        gen_errors::GATES.iter().any(|(p, g)| {
+            path.starts_with(p) && !(*g == 2 || (*g == 1 && cfg!(feature = "quic") && path.len() == p.len() + 1 && path[p.len()] == 0))
+        })
+    };
+    let mut expected = 0usize;
+    for (i, (n1, l2)) in gen_errors::VARIANTS.iter().enumerate() {
+        let mut leaves: Vec<(Vec<u64>, Vec<&str>)> = Vec::new();
+        if l2.is_empty() {
+            leaves.push((vec![i as u64], vec![*n1]));
+        }
+        for (j, (n2, l3)) in l2.iter().enumerate() {
+            if l3.is_empty() {
+                leaves.push((vec![i as u64, j as u64], vec![*n1, *n2]));
+            }
+            for (k, n3) in l3.iter().enumerate() {
+                leaves.push((vec![i as u64, j as u64, k as u64], vec![*n1, *n2, *n3]));
+            }
+        }
+        for (path, names) in leaves {
+            if gated_off(&path) {
+                continue;
+            }
+            expected += 1;
+            let code = path[0] + 4 * path.get(1).copied().unwrap_or(0) + 64 * path.get(2).copied().unwrap_or(0);
+            let e = error_of_code(w, code, 0).unwrap_or_else(|| {
+                table_error(format!("DialError variant {names:?} of src/error.rs has no constructor in the harness"))
+            });
+            let debug = format!("{e:?}");
+            let got: Vec<&str> = debug
+                .split('(')
+                .map(|t| t.trim_end_matches(|c: char| !c.is_alphanumeric()))
+                .take(names.len())
+                .collect();
+            if got != names {
+                table_error(format!(
+                    "harness index table out of step with src/error.rs: code {code} builds {got:?}, the source has {names:?}"
+                ));
+            }
+        }
+    }
+    if expected != codes.len() {
+        table_error(format!("the harness builds {} error kinds, the source has {expected}", codes.len()));
+    }
+    codes
+}
+
+fn table_error(msg: String) -> ! {
+    eprintln!("c10: {msg}");
+    std::process::exit(3)
 }
 
 // ---------------------------------------------------------------- case reader
@@ -431,11 +624,7 @@ fn run_case(rt: &Runtime, w: &World, c: &[u64]) -> Option<(Vec<u64>, Vec<u64>)> 
                 let kind = r.n()?;
                 let _ = r.maddrs()?;
                 let real = real_of(w, &a)?;
-                let error = match kind {
-                    0 => DialError::Timeout,
-                    1 => DialError::AddressError(AddressError::InvalidProtocol),
-                    _ => return None,
-                };
+                let error = error_of_code(w, kind, r.i as u64)?;
                 enc_abs(&a, &mut case);
                 case.push(kind);
                 node.manager.verif_update_address_on_dial_failure(real, &error);
@@ -463,12 +652,8 @@ fn run_case(rt: &Runtime, w: &World, c: &[u64]) -> Option<(Vec<u64>, Vec<u64>)> 
                     listener,
                 );
                 enc_list(&evicted(w), &mut case);
-                if listener {
-                    out.extend([1, 0]);
-                } else {
-                    out.extend([1, 1, 0]);
-                    dump(&store_of(w, &node.manager, peer), &mut out);
-                }
+                out.extend(if listener { vec![1, 0] } else { vec![1, 1, 0] });
+                dump(&store_of(w, &node.manager, peer), &mut out);
             }
             3 => {
                 let peer = r.peer()?;
@@ -514,6 +699,10 @@ fn run_case(rt: &Runtime, w: &World, c: &[u64]) -> Option<(Vec<u64>, Vec<u64>)> 
                 enc_abs(&a, &mut case);
                 node.manager.register_listen_address(real_of(w, &a)?);
                 out.push(5);
+                let mut l: Vec<Abs> =
+                    node.manager.verif_listen_addresses().iter().map(|a| abs_of(w, a)).collect();
+                l.sort_by_key(sort_key);
+                enc_list(&l, &mut out);
             }
             6 => {
                 let n = r.n()?;
@@ -532,15 +721,36 @@ fn run_case(rt: &Runtime, w: &World, c: &[u64]) -> Option<(Vec<u64>, Vec<u64>)> 
                 assert!(!node.limited || node.outgoing() == node.held.len(), "limit counter differs");
                 out.extend([6, node.held.len() as u64]);
             }
-            7 => {
+            7 | 9 => {
                 let peer = r.peer()?;
                 let outcome = r.n()?;
+                let errs: Vec<u64> = if tag == 9 {
+                    let n = r.count()?;
+                    (0..n).map(|_| r.n()).collect::<Option<_>>()?
+                } else {
+                    Vec::new()
+                };
                 let _ = r.maddrs()?;
                 let _ = r.maddrs()?;
-                if outcome >= 1000 {
+                if outcome >= 1000 || errs.len() >= 1000 {
                     return None;
                 }
+                for e in &errs {
+                    error_of_code(w, *e, 0)?;
+                }
+                // the error kind of attempt i (numbered over tcp ++ ws)
+                let err_at = |i: usize| -> DialError {
+                    if errs.is_empty() {
+                        DialError::Timeout
+                    } else {
+                        error_of_code(w, errs[i % errs.len()], i as u64).expect("checked")
+                    }
+                };
                 case.extend([peer, outcome]);
+                if tag == 9 {
+                    case.push(errs.len() as u64);
+                    case.extend(errs.iter().copied());
+                }
                 let before = store_of(w, &node.manager, peer);
                 // harness-side guard (DUnroutable in the model): every stored address names the
                 // peer and belongs to an installed transport, otherwise dial(peer) is not called
@@ -598,10 +808,16 @@ fn run_case(rt: &Runtime, w: &World, c: &[u64]) -> Option<(Vec<u64>, Vec<u64>)> 
                 let scripts = [node.tcp.clone(), node.ws.clone()];
                 let total = lists[0].1.len() + lists[1].1.len();
                 assert!(total > 0, "dial() returned Ok without opening anything");
+                let offsets = [0usize, lists[0].1.len()];
                 if outcome == 0 {
                     for (i, (conn, l)) in lists.iter().enumerate() {
                         if let (Some(conn), Some(script)) = (conn, &scripts[i]) {
-                            script.inject_open_failure(*conn, l.clone());
+                            let errors = l
+                                .iter()
+                                .enumerate()
+                                .map(|(n, a)| (a.clone(), err_at(offsets[i] + n)))
+                                .collect();
+                            script.inject_open_failure_with(*conn, errors);
                         }
                     }
                     node.manager.verif_drain();
@@ -610,7 +826,12 @@ fn run_case(rt: &Runtime, w: &World, c: &[u64]) -> Option<(Vec<u64>, Vec<u64>)> 
                     let (i, pos) = if j < lists[0].1.len() { (0, j) } else { (1, j - lists[0].1.len()) };
                     let (conn, l) = (lists[i].0.expect("opened"), &lists[i].1);
                     let script = scripts[i].clone().expect("installed");
-                    script.inject_connection_opened_with_errors(conn, l[pos].clone(), l[..pos].to_vec());
+                    let errors = l[..pos]
+                        .iter()
+                        .enumerate()
+                        .map(|(n, a)| (a.clone(), err_at(offsets[i] + n)))
+                        .collect();
+                    script.inject_connection_opened_with(conn, l[pos].clone(), errors);
                     node.manager.verif_drain();
                     script.inject_connection_established(w.peers[peer as usize], conn, l[pos].clone(), false);
                     node.manager.verif_drain();
@@ -623,6 +844,113 @@ fn run_case(rt: &Runtime, w: &World, c: &[u64]) -> Option<(Vec<u64>, Vec<u64>)> 
                 assert!(state[0] == 0, "peer not disconnected after the dial episode: {state:?}");
                 assert!(evicted(w).is_empty(), "a dial outcome evicted a record");
                 dump(&store_of(w, &node.manager, peer), &mut out);
+            }
+            8 => {
+                let peer = r.peer()?;
+                let a = r.maddr()?;
+                let score = r.n()?;
+                let _ = r.maddrs()?;
+                if score >= 1 << 32 {
+                    return None;
+                }
+                let real = real_of(w, &a)?;
+                case.push(peer);
+                enc_abs(&a, &mut case);
+                case.push(score);
+                node.manager.verif_store_insert(
+                    w.peers[peer as usize],
+                    real,
+                    (score as i64 - SCORE_BIAS) as i32,
+                );
+                enc_list(&evicted(w), &mut case);
+                out.extend([1, 1, 0]);
+                dump(&store_of(w, &node.manager, peer), &mut out);
+            }
+            10 => {
+                let a = r.maddr()?;
+                let res = r.n()?;
+                let _ = r.maddrs()?;
+                let real = real_of(w, &a)?;
+                let error = if res == 0 { None } else { Some(error_of_code(w, res - 1, r.i as u64)?) };
+                enc_abs(&a, &mut case);
+                case.push(res);
+                let named = match a.last() {
+                    Some((10, p)) => Some(*p),
+                    _ => None,
+                };
+                for script in [&node.tcp, &node.ws].into_iter().flatten() {
+                    let _ = script.take_calls();
+                }
+                let result = rt.block_on(node.manager.dial_address(real.clone()));
+                let code = match &result {
+                    Ok(()) => 0,
+                    Err(Error::ConnectionLimit(_)) => 1,
+                    Err(Error::TriedToDialSelf) => 2,
+                    Err(Error::AddressError(AddressError::PeerIdMissing)) => 6,
+                    Err(Error::TransportNotSupported(_)) => 7,
+                    Err(_) => 99,
+                };
+                out.extend([10, code]);
+                if code == 0 {
+                    let q = named.expect("dialed an address without a peer id");
+                    let peer = w.peers[q as usize];
+                    // which transport was asked to dial, and with which connection id
+                    let mut dialed = Vec::new();
+                    for (i, script) in [&node.tcp, &node.ws].into_iter().enumerate() {
+                        if let Some(script) = script {
+                            for call in script.take_calls() {
+                                if let VerifCall::Dial(conn) = call {
+                                    dialed.push((i, conn, script.clone()));
+                                }
+                            }
+                        }
+                    }
+                    assert!(dialed.len() == 1, "dial_address returned Ok with {} dial() calls", dialed.len());
+                    let (i, conn, script) = dialed.pop().expect("one");
+                    out.extend([i as u64, q]);
+                    match error {
+                        Some(error) => {
+                            script.inject_dial_failure_with(conn, real.clone(), error);
+                            node.manager.verif_drain();
+                        }
+                        None => {
+                            script.inject_connection_established(peer, conn, real.clone(), false);
+                            node.manager.verif_drain();
+                            script.resolve_accept(conn, true);
+                            node.manager.verif_drain();
+                            node.manager.verif_report_closed(peer, conn);
+                            node.manager.verif_drain();
+                        }
+                    }
+                    let state = node.manager.verif_peer_state(&peer);
+                    assert!(state[0] == 0, "peer not disconnected after the dial_address episode: {state:?}");
+                    assert!(!node.limited || node.outgoing() == node.held.len(), "limit counter differs");
+                }
+                enc_list(&evicted(w), &mut case);
+                out.push(0);
+                if let Some(q) = named {
+                    dump(&store_of(w, &node.manager, q), &mut out);
+                }
+            }
+            11 | 12 => {
+                let a = r.maddr()?;
+                let real = real_of(w, &a)?;
+                enc_abs(&a, &mut case);
+                let public = node.manager.verif_public_addresses();
+                if tag == 11 {
+                    let code = match public.add_address(real) {
+                        Ok(true) => 0,
+                        Ok(false) => 1,
+                        Err(InsertionError::EmptyAddress) => 2,
+                        Err(InsertionError::DifferentPeerId) => 3,
+                    };
+                    out.extend([11, code]);
+                } else {
+                    out.extend([12, public.remove_address(&real) as u64]);
+                }
+                let mut l: Vec<Abs> = public.get_addresses().iter().map(|a| abs_of(w, a)).collect();
+                l.sort_by_key(sort_key);
+                enc_list(&l, &mut out);
             }
             _ => return None,
         }
@@ -643,6 +971,10 @@ struct Gen<'a> {
     seq: u64,
     en_tcp: bool,
     en_ws: bool,
+    /// the codes of all constructible DialError variants
+    codes: Vec<u64>,
+    /// listen addresses registered so far
+    listens: Vec<Abs>,
 }
 
 impl<'a> Gen<'a> {
@@ -781,6 +1113,23 @@ impl<'a> Gen<'a> {
         l
     }
 
+    fn err_code(&mut self) -> u64 {
+        let i = self.rng.below(self.codes.len() as u64) as usize;
+        self.codes[i]
+    }
+
+    /// a raw i32 score, biased: the ends of the range, the neighbourhood of the constants, anything
+    fn raw_score(&mut self) -> u64 {
+        let z: i64 = match self.rng.below(10) {
+            0 => i32::MIN as i64 + self.rng.below(3) as i64,
+            1 => i32::MAX as i64 - self.rng.below(3) as i64,
+            2..=5 => self.rng.pick(&[-101i64, -100, -99, -2, -1, 0, 0, 1, 2, 99, 100, 101]),
+            6 | 7 => self.rng.below(400) as i64 - 200,
+            _ => self.rng.below(1 << 32) as i64 + i32::MIN as i64,
+        };
+        (z + SCORE_BIAS) as u64
+    }
+
     fn remember(&mut self, peer: u64, a: &Abs) {
         let k = &mut self.known[peer as usize];
         if k.len() < 200 {
@@ -789,11 +1138,190 @@ impl<'a> Gen<'a> {
     }
 }
 
-fn gen_case(rng: &mut Rng, index: u64, thorough: bool) -> Vec<u64> {
+/// Number of systematic cases at the start of every run: (path of the failure) x (score of the
+/// address before the failure), each over every constructible DialError variant.
+const SWEEP_PATHS: u64 = 6;
+const SWEEP_PRIORS: u64 = 7;
+const NSWEEP: u64 = SWEEP_PATHS * SWEEP_PRIORS + 1;
+
+/// Saturation case: raw inserts at and next to both ends of i32 on new global (bonus added,
+/// saturating) and private addresses, then every score written over every stored one, failures
+/// and successes on the extremes, rediscovery.
+fn saturation_case(codes: &[u64]) -> Vec<u64> {
+    let peer = 2u64;
+    let scores: [i64; 9] =
+        [i32::MIN as i64, i32::MIN as i64 + 1, -100, -1, 0, 1, 100, i32::MAX as i64 - 1, i32::MAX as i64];
+    let mut ops: Vec<Vec<u64>> = Vec::new();
+    let mut addrs: Vec<Abs> = Vec::new();
+    for (i, sc) in scores.iter().enumerate() {
+        for global in [true, false] {
+            let id = 3000 + 2 * i as u64 + global as u64;
+            let host = if global { (0, 3 * 65536 + id) } else { (1, 2 * 65536 + id) };
+            let a = vec![host, (5, 4000 + i as u64), (10, peer)];
+            let mut op = vec![8, peer];
+            enc_abs(&a, &mut op);
+            op.extend([(sc + SCORE_BIAS) as u64, 0]);
+            ops.push(op);
+            addrs.push(a);
+        }
+    }
+    for (i, a) in addrs.iter().enumerate() {
+        let sc = scores[(i * 5 + 3) % scores.len()];
+        let mut op = vec![8, peer];
+        enc_abs(a, &mut op);
+        op.extend([(sc + SCORE_BIAS) as u64, 0]);
+        ops.push(op);
+        match i % 3 {
+            0 => {
+                let mut op = vec![1];
+                enc_abs(a, &mut op);
+                op.extend([codes[i % codes.len()], 0]);
+                ops.push(op);
+            }
+            1 => {
+                let mut op = vec![2, peer];
+                enc_abs(a, &mut op);
+                op.extend([0, 0]);
+                ops.push(op);
+            }
+            _ => {}
+        }
+    }
+    let mut op = vec![0, peer, addrs.len() as u64];
+    for a in &addrs {
+        enc_abs(a, &mut op);
+    }
+    op.extend([0, 0]);
+    ops.push(op);
+    ops.push(vec![3, peer, 64, 0]);
+    let mut c = vec![1, 0, 1, 1, 0, 0, 0, ops.len() as u64];
+    for op in ops {
+        c.extend(op);
+    }
+    c
+}
+
+/// Sweep case: for every error kind one stored address of peer 1 with the prior score, a failure
+/// of that kind through `path` (0 update_address_on_dial_failure, 1 dial_address + DialFailure
+/// event, 2 dial(peer) + OpenFailure events, 3 dial(peer) + ConnectionOpened with errors; and the
+/// success paths 4 update_address_on_connection_established, 5 dial_address + ConnectionEstablished),
+/// then a rediscovery of everything and the dial order.
+fn sweep_case(codes: &[u64], index: u64) -> Vec<u64> {
+    if index == NSWEEP - 1 {
+        return saturation_case(codes);
+    }
+    let (path, prior) = (index % SWEEP_PATHS, index / SWEEP_PATHS);
+    let peer = 1u64;
+    let mut ops: Vec<Vec<u64>> = Vec::new();
+    let mut addrs: Vec<Abs> = Vec::new();
+    for (i, code) in codes.iter().enumerate() {
+        let id = 2000 + i as u64;
+        // prior 1: a global address (untested score = the public bonus); otherwise private
+        let host = if prior == 1 { (0, 3 * 65536 + id) } else { (0, 2 * 65536 + id) };
+        let mut a = vec![host, (5, 1000 + i as u64)];
+        if i % 2 == 1 {
+            a.push((7, 0));
+        }
+        a.push((10, peer));
+        let mut op = vec![0, peer, 1];
+        enc_abs(&a, &mut op);
+        op.extend([0, 0]);
+        ops.push(op);
+        let mut setup = Vec::new();
+        match prior {
+            2 => {
+                setup.extend([2, peer]);
+                enc_abs(&a, &mut setup);
+                setup.extend([0, 0]);
+            }
+            3 | 4 => {
+                setup.push(1);
+                enc_abs(&a, &mut setup);
+                setup.extend([if prior == 3 { 0 } else { 1 }, 0]);
+            }
+            5 | 6 => {
+                setup.extend([8, peer]);
+                enc_abs(&a, &mut setup);
+                setup.extend([(if prior == 5 { 7 } else { -7 } + SCORE_BIAS) as u64, 0]);
+            }
+            _ => {}
+        }
+        if !setup.is_empty() {
+            ops.push(setup);
+        }
+        match path {
+            0 => {
+                let mut op = vec![1];
+                enc_abs(&a, &mut op);
+                op.extend([*code, 0]);
+                ops.push(op);
+            }
+            1 => {
+                let mut op = vec![10];
+                enc_abs(&a, &mut op);
+                op.extend([*code + 1, 0]);
+                ops.push(op);
+            }
+            4 => {
+                let mut op = vec![2, peer];
+                enc_abs(&a, &mut op);
+                op.extend([0, 0]);
+                ops.push(op);
+            }
+            5 => {
+                let mut op = vec![10];
+                enc_abs(&a, &mut op);
+                op.extend([0, 0]);
+                ops.push(op);
+            }
+            _ => {}
+        }
+        addrs.push(a);
+    }
+    if path == 2 || path == 3 {
+        // every stored address is handed to open(); attempt i fails with kind (i + shift) mod n
+        for shift in [0usize, 7, 13] {
+            let mut op = vec![9, peer, if path == 2 { 0 } else { 999 }, codes.len() as u64];
+            op.extend((0..codes.len()).map(|i| codes[(i + shift) % codes.len()]));
+            op.extend([0, 0]);
+            ops.push(op);
+            ops.push(vec![3, peer, 64, 0]);
+        }
+    }
+    // rediscovery of everything, then the dial order
+    let mut op = vec![0, peer, addrs.len() as u64];
+    for a in &addrs {
+        enc_abs(a, &mut op);
+    }
+    op.extend([0, 0]);
+    ops.push(op);
+    ops.push(vec![3, peer, 5, 0]);
+    ops.push(vec![3, peer, 64, 0]);
+    let mut c = vec![1, 0, 1, 1, 0, 0, 0, ops.len() as u64];
+    for op in ops {
+        c.extend(op);
+    }
+    c
+}
+
+fn gen_case(rng: &mut Rng, codes: &[u64], index: u64, thorough: bool) -> Vec<u64> {
+    if index < NSWEEP {
+        return sweep_case(codes, index);
+    }
+    let index = index - NSWEEP;
     let ports = [30, 31, rng.range(1, 65535)];
     let en_tcp = rng.chance(90);
     let en_ws = rng.chance(65);
-    let mut g = Gen { rng, ports, known: vec![Vec::new(); NPEERS as usize], seq: 0, en_tcp, en_ws };
+    let mut g = Gen {
+        rng,
+        ports,
+        known: vec![Vec::new(); NPEERS as usize],
+        seq: 0,
+        en_tcp,
+        en_ws,
+        codes: codes.to_vec(),
+        listens: Vec::new(),
+    };
     let local = g.rng.below(4);
     // max_outgoing_connections: none, or 0..=8 (encoded +1)
     let max_out = if g.rng.chance(30) { 0 } else { 1 + g.rng.pick(&[0u64, 1, 2, 3, 3, 5, 8, 8]) };
@@ -821,6 +1349,7 @@ fn gen_case(rng: &mut Rng, index: u64, thorough: bool) -> Vec<u64> {
         let l = g.listen_addr();
         c.push(5);
         enc_abs(&l, &mut c);
+        g.listens.push(l);
     }
     for _ in 0..nops {
         let peer = if fill && g.rng.chance(90) { focus } else { (focus + g.rng.below(npeers)) % NPEERS };
@@ -852,7 +1381,13 @@ fn gen_case(rng: &mut Rng, index: u64, thorough: bool) -> Vec<u64> {
             let a = if clean { g.known_or_fresh(peer) } else { g.addr(peer) };
             c.push(1);
             enc_abs(&a, &mut c);
-            c.extend([g.rng.chance(25) as u64, 0]);
+            c.extend([g.err_code(), 0]);
+        } else if r < add_single + 25 {
+            // AddressStore::insert with a raw score
+            let a = if clean { g.known_or_fresh(peer) } else { g.addr(peer) };
+            c.extend([8, peer]);
+            enc_abs(&a, &mut c);
+            c.extend([g.raw_score(), 0]);
         } else if r < add_single + 30 {
             let a = if clean { g.known_or_fresh(peer) } else { g.addr(peer) };
             c.extend([2, peer]);
@@ -869,13 +1404,60 @@ fn gen_case(rng: &mut Rng, index: u64, thorough: bool) -> Vec<u64> {
             let l = g.listen_addr();
             c.push(5);
             enc_abs(&l, &mut c);
-        } else if r < add_single + 49 {
+            g.listens.push(l);
+        } else if r < add_single + 46 {
+            // PublicAddresses: add (with / without / foreign peer id, empty) and remove
+            let mut a = if g.rng.chance(8) { Vec::new() } else { g.listen_addr() };
+            match g.rng.below(10) {
+                0..=3 => a.push((10, local)),
+                4 | 5 => a.push((10, g.rng.below(NPEERS))),
+                _ => {}
+            }
+            c.push(if g.rng.chance(70) { 11 } else { 12 });
+            enc_abs(&a, &mut c);
+        } else if r < add_single + 50 {
             c.extend([6, g.rng.below(9)]);
+        } else if r < add_single + 57 {
+            // dial_address: a stored address, a fresh one, or any shape (unspecified hosts, listen
+            // addresses, trailing components, foreign transports); failure of any kind or success
+            let a = match g.rng.below(10) {
+                0..=4 => g.known_or_fresh(peer),
+                5 | 6 if !clean => g.addr(peer),
+                5 | 6 => g.fresh(peer),
+                7 => {
+                    // a registered listen address (literally, or under another peer id), or a new one
+                    let mut l = if !g.listens.is_empty() && g.rng.chance(75) {
+                        let i = g.rng.below(g.listens.len() as u64) as usize;
+                        g.listens[i].clone()
+                    } else {
+                        g.listen_addr()
+                    };
+                    l.push((10, if g.rng.chance(50) { local } else { peer }));
+                    l
+                }
+                _ => g.addr(peer),
+            };
+            g.remember(peer, &a);
+            let res = if g.rng.chance(35) { 0 } else { g.err_code() + 1 };
+            c.push(10);
+            enc_abs(&a, &mut c);
+            c.extend([res, 0]);
         } else {
-            // dial(peer): half of the attempts fail completely, the others succeed somewhere
+            // dial(peer): half of the attempts fail completely, the others succeed somewhere;
+            // the failing attempts time out (tag 7) or fail with kinds of every sort (tag 9)
             let outcome = if g.rng.chance(50) { 0 } else { g.rng.range(1, 200) };
             let p = if g.rng.chance(4) { g.rng.below(NPEERS) } else { peer };
-            c.extend([7, p, outcome, 0, 0]);
+            if g.rng.chance(25) {
+                c.extend([7, p, outcome, 0, 0]);
+            } else {
+                let n = g.rng.range(1, 6);
+                c.extend([9, p, outcome, n]);
+                for _ in 0..n {
+                    let e = g.err_code();
+                    c.push(e);
+                }
+                c.extend([0, 0]);
+            }
         }
     }
     c
@@ -890,6 +1472,7 @@ pub fn main(args: &Args) {
     let _g = rt.enter();
     let mut rng = Rng::new(seed);
     let w = World::new();
+    let codes = all_error_codes(&w);
 
     let run = |c: &[u64]| -> (Vec<u64>, Vec<u64>) {
         match catch_unwind(AssertUnwindSafe(|| run_case(&rt, &w, c))) {
@@ -915,7 +1498,7 @@ pub fn main(args: &Args) {
     }
     for i in 0..ncases {
         let mut r = rng.fork();
-        let c = gen_case(&mut r, i, thorough);
+        let c = gen_case(&mut r, &codes, i, thorough);
         let (case, t) = run(&c);
         out.emit(&case, &t);
     }
